@@ -539,6 +539,13 @@ fn lattice_cases(r: i32) -> impl Strategy<Value = Case> {
             Case::LatCL { c, r: h, p: (t.0 - off * b, t.1 + off * a), q: (t.0 - (off + k) * b, t.1 + (off + k) * a) }
         }),
         2 => (lat(r), lat(r), lat(r), lat(r)).prop_map(|(p1, q1, p2, q2)| Case::LatLL { p1, q1, p2, q2 }),
+        // parallel and coincident lines by construction: same direction (scaled), shifted or not
+        1 => (lat(r), lat(6), -4i32..=4, lat(r), any::<bool>()).prop_map(|(p1, d, k, shift, same)| {
+            let k = if k == 0 { 1 } else { k };
+            let q1 = (p1.0 + d.0, p1.1 + d.1);
+            let p2 = if same { (p1.0 + 2 * d.0, p1.1 + 2 * d.1) } else { (p1.0 + shift.0, p1.1 + shift.1) };
+            Case::LatLL { p1, q1, p2, q2: (p2.0 + k * d.0, p2.1 + k * d.1) }
+        }),
         2 => (lat(r), 1..=r, lat(r)).prop_map(|(c, r, p)| Case::LatPos { c, r, p }),
         1 => (lat(r), prop::sample::select(TRIPLES.to_vec()), sgn(), sgn()).prop_map(|(c, (a, b, h), sa, sb)| Case::LatPos { c, r: h, p: (c.0 + sa * a, c.1 + sb * b) }),
         2 => (lat(r), lat(r), lat(r)).prop_map(|(p, q, x)| Case::LatContains { p, q, x }),
